@@ -42,6 +42,85 @@ func genValidDoc(r *rng.R, s *schemaDef, loose bool) (*doc, map[string]bool) {
 	return d, g.stats
 }
 
+// decorate puts @include / @skip (constant, or driven by a Boolean! variable of the operation) and the
+// behaviour-less @tag on selections of a valid document: fields (never __typename, which the
+// generated decoders need), fragment spreads and inline fragments; @tag also on operations and
+// fragment definitions.  The generator ignores directives; the executor leaves out what is skipped.
+// The first selection of every selection set stays unconditional.
+func decorate(r *rng.R, d *doc, stats map[string]bool) {
+	frags := map[string]*fragDef{}
+	for _, f := range d.frags {
+		frags[f.name] = f
+	}
+	// does the selection carry a __typename (the key a generated decoder may switch on)?  A selection
+	// that does stays unconditional: were it skipped, the fragments of its selection set would not
+	// be decoded - the envelope's "selects __typename" must hold of the operation as executed.
+	var carriesTn func(s *sel, depth int) bool
+	carriesTn = func(s *sel, depth int) bool {
+		if depth > 8 {
+			return true
+		}
+		switch s.kind {
+		case 'f':
+			if s.name == "__typename" {
+				return true
+			}
+		case 's':
+			f := frags[s.name]
+			if f == nil {
+				return true
+			}
+			for _, x := range f.sels {
+				if carriesTn(x, depth+1) {
+					return true
+				}
+			}
+			return false
+		}
+		for _, x := range s.sels {
+			if carriesTn(x, depth+1) {
+				return true
+			}
+		}
+		return false
+	}
+	var walk func(sels []*sel, op *opDef)
+	walk = func(sels []*sel, op *opDef) {
+		for i, s := range sels {
+			// the first selection of a set stays unconditional: a selection set never becomes empty
+			if i > 0 && !carriesTn(s, 0) && r.Chance(1, 2) {
+				u := &dirUse{skip: r.Bool(), c: r.Bool()}
+				if op != nil && r.Bool() {
+					if len(op.vars) > 0 && (len(op.vars) >= 3 || r.Bool()) {
+						u.v = rng.Pick(r, op.vars)
+					} else {
+						u.v = fmt.Sprintf("v%d", len(op.vars))
+						op.vars = append(op.vars, u.v)
+					}
+					stats["directive-variable"] = true
+				} else {
+					stats["directive-constant"] = true
+				}
+				s.dir = u
+				stats[map[byte]string{'f': "directive-on-field", 'i': "directive-on-inline-fragment", 's': "directive-on-spread"}[s.kind]] = true
+			}
+			if r.Chance(1, 8) {
+				s.tag = true
+				stats["tag-directive"] = true
+			}
+			walk(s.sels, op)
+		}
+	}
+	for _, op := range d.ops {
+		op.tag = r.Chance(1, 3)
+		walk(op.sels, op)
+	}
+	for _, f := range d.frags {
+		f.tag = r.Chance(1, 3)
+		walk(f.sels, nil)
+	}
+}
+
 // ---- walking helpers ----
 
 type selRef struct {
